@@ -141,12 +141,17 @@ FSqrt(a, p) ==
                     BModExp(a, BShr(BAdd(q, <<1>>), 1), p), p)
 
 (* ---------------------------------------------------------------- points *)
-(* the bit that selects the ordinate in the compressed form:               *)
-(*   "parity"  y mod 2                 (SEC 1, ordinary curves)            *)
-(*   "half"    y > (p-1)/2             (pairing-friendly curves, IETF)     *)
-(*   "mont"    (y * sg.r mod p) mod 2  - parity of a Montgomery            *)
-(*             representation; NOT part of the specification, only used to *)
-(*             key a known finding (CodecSpec)                             *)
+(* The bit that selects the ordinate in a packed form is a PARAMETER sg of the *)
+(* format: any function of the ordinate that separates y from -y for y # 0     *)
+(* gives a canonical, round-tripping format (MCCodec checks the invariants for *)
+(* the plain conventions).  The conventions RELIC's representation induces:    *)
+(*   "parity"  y mod 2                 stored digits = the value               *)
+(*   "half"    y > (p-1)/2             pairing-friendly curves (IETF), where   *)
+(*                                     the code converts to an integer first   *)
+(*   "mont"    (y * sg.r mod p) mod 2  bit 0 of the stored digits when the     *)
+(*                                     element is kept as y*R mod p (sg.r =    *)
+(*                                     R mod p, Montgomery builds)             *)
+(* CodecSpec selects sg from the recorded field header (RawSg / SgOf).         *)
 SgParity == [kind |-> "parity", r |-> <<1>>]
 SgHalf   == [kind |-> "half", r |-> <<1>>]
 SgMont(r) == [kind |-> "mont", r |-> r]
